@@ -153,12 +153,14 @@ def materials(w, as_expr=False):
 
 # ----------------------------------------------------------------------------- one op
 
-def apply_op(soup, op, salt=0):
-    """Apply one op to the real objects (raises on failure)."""
+def apply_op(soup, op, salt=0, variant=None):
+    """Apply one op to the real objects (raises on failure).  `del`/`rep` have two spellings
+    in the API (`node.delete()` / `parent.remove(node)`, `node.replace_with` /
+    `parent.replace`): `variant` 1 / 0 forces one, None draws it from a hash of (salt, op)."""
     from TexSoup import data as D
     words = op.split(' ')
     kind = words[0]
-    coin = zlib.crc32(('%d/%s' % (salt, op)).encode()) & 1
+    coin = zlib.crc32(('%d/%s' % (salt, op)).encode()) & 1 if variant is None else variant
     if kind == 'del':
         p = parse_path(words[1])
         if not p:
@@ -219,20 +221,22 @@ def apply_op(soup, op, salt=0):
         raise ValueError(op)
 
 
-def impl_edit(source, ops, detail=None):
-    """Run a history on the real objects; answer in the driver's format."""
+def impl_edit(source, ops, detail=None, soup=None, variant=None):
+    """Run a history on the real objects; answer in the driver's format.  `soup`: a prepared
+    tree of `source` (see `clone`) instead of a fresh parse; `variant`: see `apply_op`."""
     T = common.impl()
-    try:
-        soup = T.TexSoup(source)
-    except RecursionError:
-        raise
-    except Exception as e:
-        return common.classify_exc(e)
+    if soup is None:
+        try:
+            soup = T.TexSoup(source)
+        except RecursionError:
+            raise
+        except Exception as e:
+            return common.classify_exc(e)
     outs = []
     for k, op in enumerate(ops):
         before = canon_root(soup)
         try:
-            apply_op(soup, op, salt=k)
+            apply_op(soup, op, salt=k, variant=variant)
             outs.append(enc(str(soup)))
         except RecursionError:
             raise
@@ -586,6 +590,592 @@ def selftest(driver_path=None, n_random=3000, max_len=8, verbose=True):
         for e in report['examples']:
             print(e)
     return report
+
+
+# ----------------------------------------------------------------------------- string reference
+#
+# Everything below looks at the implementation only (no model): where an element of the
+# tree lies in `str(soup)`, computed from the text of what precedes it structurally (never
+# from `.position`), what an op is expected to do to that text (`resolve`), the op through
+# the public API (`perform`), and the views after an edit (`check_views`, `check_untouched`).
+
+def clone(soup):
+    """An isomorphic copy of a tree (deep copy of the expressions, new root node)."""
+    import copy
+    from TexSoup import data as D
+    return D.TexNode(copy.deepcopy(soup.expr))
+
+
+def _delims(e):
+    from TexSoup import data as D
+    table = {D.BraceGroup: ('{', '}'), D.BracketGroup: ('[', ']'), D.TexMathModeEnv: ('$', '$'),
+             D.TexDisplayMathModeEnv: ('$$', '$$'), D.TexDisplayMathEnv: ('\\[', '\\]'),
+             D.TexMathEnv: ('\\(', '\\)')}
+    if type(e) in table:
+        return table[type(e)]
+    if isinstance(e, D.TexCmd):
+        return ('\\' + str(e.name), '')
+    if isinstance(e, D.TexNamedEnv):
+        return ('\\begin{%s}' % e.name, '\\end{%s}' % e.name)
+    if isinstance(e, D.TexEnv):
+        if e.name == '[tex]':
+            return ('', '')
+        return (str(e.begin), str(e.end))
+    return ('', '')
+
+
+def head_text(e):
+    """The characters of str(e) in front of its arguments."""
+    return _delims(e)[0]
+
+
+def args_len(e):
+    return sum(len(str(a)) for a in e.args)
+
+
+def open_len(e):
+    """Number of characters of str(e) in front of its own contents."""
+    return len(head_text(e)) + args_len(e)
+
+
+def body_len(e):
+    return sum(len(str(c)) for c in e._contents)
+
+
+def locate(soup, path):
+    """(k, x, holder, owner): the element x at `path`, its offset k in str(soup), the
+    expression `holder` whose `_contents` list holds it and the node expression `owner` that
+    the holder belongs to (holder is owner or one of owner.args).  Root: (0, root, None, None)."""
+    e, k, holder, owner = soup.expr, 0, None, None
+    for st in path:
+        if _is_text(e):
+            raise BadPath(show_path(path))
+        owner = e
+        if st[0] == 'b':
+            holder = e
+            k += open_len(e)
+        else:
+            if st[1] >= len(e.args):
+                raise BadPath(show_path(path))
+            holder = e.args[st[1]]
+            if _is_text(holder):
+                raise BadPath(show_path(path))
+            k += len(head_text(e)) + sum(len(str(a)) for a in list(e.args)[:st[1]]) + open_len(holder)
+        j = st[-1]
+        if j >= len(holder._contents):
+            raise BadPath(show_path(path))
+        k += sum(len(str(c)) for c in holder._contents[:j])
+        e = holder._contents[j]
+    return k, e, holder, owner
+
+
+def span_of(soup, path):
+    """(k, n): str(soup)[k:k+n] is the text of the element at `path`."""
+    k, x, _, _ = locate(soup, path)
+    return k, len(str(x))
+
+
+def ins_point(soup, cpath, i):
+    """Offset in str(soup) of insertion index i (clamped to the length, as list.insert does)
+    of the contents of the container at `cpath`."""
+    k, c, _, _ = locate(soup, cpath)
+    if _is_text(c):
+        raise BadPath(show_path(cpath))
+    return k + open_len(c) + sum(len(str(x)) for x in c._contents[:min(i, len(c._contents))])
+
+
+def refuses_contents(e):
+    """Content lists of plain commands (every command but `item`) cannot be edited
+    (documented: TypeError)."""
+    from TexSoup import data as D
+    return isinstance(e, D.TexCmd) and str(e.name) != 'item'
+
+
+def _blank(c):
+    from TexSoup import data as D
+    if isinstance(c, D.TexText):
+        c = c._text
+    return isinstance(c, str) and c.isspace()
+
+
+def flat_all(e):
+    """`expr.all`, structurally: the (non-blank) contents of every argument, then the own
+    contents. Text leaves stay the TexText objects."""
+    out = []
+    for a in e.args:
+        out.extend(flat_contents(a))
+    out.extend(e._contents)
+    return out
+
+
+def flat_contents(e):
+    return [c for c in flat_all(e) if not _blank(c)]
+
+
+def _textlike(c):
+    from TexSoup import data as D
+    return isinstance(c, D.TexText) or not isinstance(c, D.TexExpr)
+
+
+def _text_of(c):
+    from TexSoup import data as D
+    return c._text if isinstance(c, D.TexText) else c
+
+
+_PROTO = {}
+
+
+def fresh(w, as_expr=False):
+    """Like `material`, but the source of a material is parsed once per process and every
+    use gets its own deep copy of that parse (a new object each time, as `material` gives)."""
+    import copy
+    from TexSoup import data as D
+    if w[0] == 's':
+        return material(w, as_expr)
+    key = (w, as_expr)
+    if key not in _PROTO:
+        _PROTO[key] = material(w, as_expr)
+    m = _PROTO[key]
+    if isinstance(m, D.TexNode):
+        return D.TexNode(copy.deepcopy(m.expr))
+    return copy.deepcopy(m)
+
+
+def fresh_list(w, as_expr=False):
+    return [] if w == '_' else [fresh(x, as_expr) for x in w.split(',')]
+
+
+class Op(object):
+    """A parsed op with its material objects (built once: the text of the material and the
+    objects handed to the API are the same)."""
+
+    def __init__(self, op):
+        w = op.split(' ')
+        self.op, self.kind = op, w[0]
+        self.path = parse_path(w[1])
+        self.index = self.name = self.string = self.sub = None
+        self.mats, self.nums = [], []
+        k = self.kind
+        if k == 'rep':
+            self.mats = fresh_list(w[2])
+        elif k == 'ins':
+            self.index, self.mats = int(w[2]), fresh_list(w[3])
+        elif k == 'app':
+            self.mats = fresh_list(w[2])
+        elif k == 'ren':
+            self.name = dec(w[2])
+        elif k == 'str':
+            self.string = dec(w[2])
+        elif k == 'args':
+            self.mats = fresh_list(w[2], as_expr=True)
+        elif k == 'aop':
+            self.sub = w[2]
+            if self.sub in ('app', 'ext'):
+                self.mats = [argmat(x) for x in w[3].split(',')]
+            elif self.sub == 'ins':
+                self.nums, self.mats = [int(w[3])], [argmat(w[4])]
+            elif self.sub in ('pop', 'rem'):
+                self.nums = [int(w[3])]
+            elif self.sub == 'sl':
+                self.nums = [int(w[3]), int(w[4])]
+            elif self.sub == 'perm':
+                self.nums = [int(x) for x in w[3].split(',')] if w[3] != '_' else []
+            elif self.sub not in ('rev', 'clr'):
+                raise ValueError(op)
+        elif k != 'del':
+            raise ValueError(op)
+
+    def mat_exprs(self):
+        from TexSoup import data as D
+        return [m.expr if isinstance(m, D.TexNode) else m for m in self.mats]
+
+    def mat_text(self):
+        return ''.join(str(m) for m in self.mats)
+
+
+def argmat(w):
+    """Material of a TexArgs operation: a group/command object, or (s:) an unparsed argument
+    string such as '{z}' that TexArgs turns into a group itself."""
+    if w[0] == 's':
+        return dec(w[2:])
+    return fresh(w, as_expr=True)
+
+
+def _list_op(P, ref):
+    """The TexArgs operation of P on a plain Python list (raises what list raises)."""
+    s = P.sub
+    if s == 'app':
+        ref.append(P.mats[0])
+    elif s == 'ext':
+        ref.extend(P.mats)
+    elif s == 'ins':
+        ref.insert(P.nums[0], P.mats[0])
+    elif s == 'pop':
+        ref.pop(P.nums[0])
+    elif s == 'rem':
+        ref.remove(ref[P.nums[0]])
+    elif s == 'rev':
+        ref.reverse()
+    elif s == 'clr':
+        ref.clear()
+    elif s == 'sl':
+        ref[:] = ref[P.nums[0]:P.nums[1]]
+    elif s == 'perm':
+        ref[:] = [ref[i] for i in P.nums]
+    return ref
+
+
+def resolve(soup, P):
+    """What the op is expected to do to str(soup), decided on the current tree *before* the
+    op, independently of the code under test:
+
+        ('skip', why)               the harness cannot express the op here (no such path, a
+                                    bare string as target, ...): it is not applied
+        ('refuse', why)             the API refuses (raises); the document stays as it is
+        ('splice', [(k, n, new)..], site)   str(soup)[k:k+n] is replaced by `new` (disjoint
+                                    spans, ascending), nothing else changes; `site` says
+                                    which paths are affected (see check_untouched)
+    """
+    from TexSoup import data as D
+    k = P.kind
+    try:
+        off, x, holder, owner = locate(soup, P.path)
+    except BadPath:
+        return ('skip', 'no such path')
+    if k in ('ins', 'app'):
+        if _is_text(x):
+            return ('skip', 'text leaf as container')
+        if refuses_contents(x):
+            return ('refuse', 'command without contents')
+        n = len(x._contents)
+        i = n if k == 'app' else min(P.index, n)
+        if P.index is not None and P.index < 0:
+            return ('skip', 'negative index')
+        at = off + open_len(x) + sum(len(str(c)) for c in x._contents[:i])
+        return ('splice', [(at, 0, P.mat_text())],
+                {'kind': 'list', 'q': list(P.path), 'h': ('b',), 's': i, 'd': 0, 'new': P.mat_exprs()})
+    if not P.path:
+        return ('skip', 'root as target')
+    if not isinstance(x, D.TexExpr):
+        return ('skip', 'bare string has no node')
+    st = P.path[-1]
+    if k in ('del', 'rep'):
+        if refuses_contents(holder):
+            return ('refuse', 'holder is a command without contents')
+        new = P.mat_text() if k == 'rep' else ''
+        return ('splice', [(off, len(str(x)), new)],
+                {'kind': 'list', 'q': list(P.path[:-1]), 'h': st[:-1], 's': st[-1], 'd': 1,
+                 'new': P.mat_exprs() if k == 'rep' else []})
+    if k == 'ren':
+        if isinstance(x, D.TexCmd):
+            return ('splice', [(off + 1, len(str(x.name)), P.name)], {'kind': 'node', 'p': list(P.path)})
+        if isinstance(x, D.TexNamedEnv):
+            n, ln = len(str(x.name)), len(str(x))
+            return ('splice', [(off + 7, n, P.name), (off + ln - 1 - n, n, P.name)],
+                    {'kind': 'node', 'p': list(P.path)})
+        return ('skip', 'rename of %s' % type(x).__name__)
+    if k == 'str':
+        if isinstance(x, D.TexText):
+            return ('skip', 'string of a text leaf')
+        if isinstance(x, D.TexCmd):
+            if len(x.args) != 1:
+                return ('refuse', 'command without exactly one argument')
+            a = x.args[0]
+            return ('splice', [(off + len(head_text(x)) + open_len(a), body_len(a), P.string)],
+                    {'kind': 'inner', 'p': list(P.path), 'h': ('a', 0)})
+        fc = flat_contents(x)
+        if len(fc) == 1 and _textlike(fc[0]):
+            return ('splice', [(off + open_len(x), body_len(x), P.string)],
+                    {'kind': 'inner', 'p': list(P.path), 'h': ('b',)})
+        return ('refuse', 'environment that is not text-only')
+    if k in ('args', 'aop'):
+        if not isinstance(x, (D.TexCmd, D.TexNamedEnv)):
+            return ('skip', 'args of %s' % type(x).__name__)
+        if k == 'args':
+            if not all(isinstance(m, (D.TexGroup, D.TexCmd)) for m in P.mats):
+                return ('skip', 'TexArgs drops this material')
+            ref = list(P.mats)
+        else:
+            try:
+                ref = _list_op(P, list(x.args))
+            except (IndexError, ValueError) as e:
+                if P.sub == 'rem':
+                    return ('skip', 'no such argument')
+                return ('refuse', 'list raises %s' % type(e).__name__)
+        return ('splice', [(off + len(head_text(x)), args_len(x), ''.join(str(a) for a in ref))],
+                {'kind': 'args', 'p': list(P.path), 'ref': ref})
+    raise ValueError(P.op)
+
+
+def ref_apply(text, splices):
+    for k, n, new in sorted(splices, reverse=True):
+        text = text[:k] + new + text[k + n:]
+    return text
+
+
+def perform(soup, P, variant=0):
+    """The op through the public TexNode / TexArgs API on a correctly parented node."""
+    from TexSoup import data as D
+    k = P.kind
+    node = node_for(soup, P.path)
+    if k == 'del':
+        if variant:
+            node.delete()
+        else:
+            node.parent.remove(node)
+    elif k == 'rep':
+        if variant:
+            node.replace_with(*P.mats)
+        else:
+            node.parent.replace(node, *P.mats)
+    elif k == 'ins':
+        node.insert(P.index, *P.mats)
+    elif k == 'app':
+        node.append(*P.mats)
+    elif k == 'ren':
+        node.name = P.name
+    elif k == 'str':
+        node.string = P.string
+    elif k == 'args':
+        node.args = D.TexArgs(P.mats)
+    elif k == 'aop':
+        s = P.sub
+        if s == 'app':
+            node.args.append(P.mats[0])
+        elif s == 'ext':
+            node.args.extend(P.mats)
+        elif s == 'ins':
+            node.args.insert(P.nums[0], P.mats[0])
+        elif s == 'pop':
+            node.args.pop(P.nums[0])
+        elif s == 'rem':
+            node.args.remove(node.args[P.nums[0]])
+        elif s == 'rev':
+            node.args.reverse()
+        elif s == 'clr':
+            node.args.clear()
+        elif s == 'sl':
+            node.args = node.args[P.nums[0]:P.nums[1]]
+        elif s == 'perm':
+            node.args = D.TexArgs([node.args[i] for i in P.nums])
+
+
+# ----------------------------------------------------------------------------- tree snapshots
+
+def snapshot(soup):
+    """[(path, element)] for every element of every content list (bodies and argument
+    contents), bare strings included, in document order."""
+    out = []
+
+    def walk(e, path):
+        for i, a in enumerate(e.args):
+            if _is_text(a):
+                continue
+            for j, x in enumerate(a._contents):
+                visit(x, path + (('a', i, j),))
+        for j, x in enumerate(e._contents):
+            visit(x, path + (('b', j),))
+
+    def visit(x, path):
+        out.append((path, x))
+        if _is_expr(x) and not _is_text(x):
+            walk(x, path)
+
+    walk(soup.expr, ())
+    return out
+
+
+def _starts(path, prefix):
+    return len(path) >= len(prefix) and tuple(path[:len(prefix)]) == tuple(prefix)
+
+
+def check_untouched(before, soup, site):
+    """`before` = snapshot taken before a successful op, `site` from `resolve`. Every element
+    that was not targeted must be the same object at the same place (siblings behind the edit
+    point moved by inserted - removed), with the same text unless it contains the edit; new
+    material sits at the edit point; no object occurs twice. Returns None or a message."""
+    after = snapshot(soup)
+    amap = dict(after)
+    ids = [id(x) for _, x in after if _is_expr(x)]
+    idset = set(ids)
+    if len(ids) != len(idset):
+        return 'an expression object occurs at two places'
+    kind = site['kind']
+    expected = 0
+    if kind == 'list':
+        q, h, s, d, new = tuple(site['q']), tuple(site['h']), site['s'], site['d'], site['new']
+        shift = len(new) - d
+        for path, x in before:
+            inside = _starts(path, q) and len(path) > len(q) and path[len(q)][:-1] == h
+            np = path
+            if inside:
+                j = path[len(q)][-1]
+                if s <= j < s + d:
+                    if _is_expr(x) and id(x) in idset:
+                        return 'removed element %s is still in the tree' % show_path(path)
+                    continue
+                if j >= s + d:
+                    np = path[:len(q)] + (h + (j + shift,),) + path[len(q) + 1:]
+            expected += 1
+            msg = _same(amap, np, x)
+            if msg:
+                return 'untargeted %s: %s' % (show_path(path), msg)
+        for t, m in enumerate(new):
+            at = q + (h + (s + t,),)
+            got = amap.get(at)
+            if (got is not m) if _is_expr(m) else (got != m or _is_expr(got)):
+                return 'new material %d is not at %s' % (t, show_path(at))
+            expected += sum(1 for pth, _ in after if _starts(pth, at))
+    elif kind == 'node':
+        p = tuple(site['p'])
+        for path, x in before:
+            expected += 1
+            msg = _same(amap, path, x)
+            if msg:
+                return 'untargeted %s: %s' % (show_path(path), msg)
+    elif kind in ('inner', 'args'):
+        p = tuple(site['p'])
+        for path, x in before:
+            if _starts(path, p) and len(path) > len(p):
+                st = path[len(p)]
+                gone = (st[0] == 'a') if kind == 'args' else (st[:-1] == tuple(site['h']))
+                if gone:
+                    continue
+            expected += 1
+            msg = _same(amap, path, x)
+            if msg:
+                return 'untargeted %s: %s' % (show_path(path), msg)
+        expected += sum(1 for pth, _ in after if _starts(pth, p) and len(pth) > len(p) and (
+            (pth[len(p)][0] == 'a') if kind == 'args' else (pth[len(p)][:-1] == tuple(site['h']))))
+    if expected != len(after):
+        return 'the tree has %d elements, expected %d' % (len(after), expected)
+    return None
+
+
+def _same(amap, path, x):
+    got = amap.get(path, amap)
+    if got is amap:
+        return 'lost (nothing at %s)' % show_path(path)
+    if _is_expr(x):
+        if got is not x:
+            return 'another object at %s' % show_path(path)
+    elif got != x or _is_expr(got):
+        return 'another string at %s' % show_path(path)
+    return None
+
+
+def frozen_text(before):
+    """{id: text} of the expressions of a snapshot (to compare after an op)."""
+    return {id(x): str(x) for _, x in before if _is_expr(x)}
+
+
+def check_texts(before, texts, soup, site):
+    """Untargeted elements keep their text: all but the ancestors of the edit point (and,
+    for node edits, the node itself)."""
+    if site['kind'] == 'list':
+        anc = tuple(site['q'])
+    else:
+        anc = tuple(site['p'])
+    for path, x in before:
+        if _is_expr(x) and not _starts(anc, path) and str(x) != texts[id(x)]:
+            return 'untargeted %s changed its text' % show_path(path)
+    return None
+
+
+def check_views(soup, names=(), new=(), container=None):
+    """find_all / descendants / children / contents / text / parent of the (edited) tree are
+    mutually consistent, in the sense of C03/C04, with the structure (`flat_contents`).
+    `new`: inserted material that must show up below the node at path `container`."""
+    from TexSoup import data as D
+    try:
+        desc = list(soup.descendants)
+    except Exception as e:
+        return 'descendants raises %s: %s' % (type(e).__name__, e)
+    nodes = [d for d in desc if isinstance(d, D.TexNode)]
+    # structure
+    want_nodes, want_text = [], []
+
+    def walk(e):
+        for c in flat_contents(e):
+            if _textlike(c):
+                want_text.append(_text_of(c))
+            else:
+                want_nodes.append(c)
+                walk(c)
+    walk(soup.expr)
+    got = [id(n.expr) for n in nodes]
+    if len(got) != len(set(got)):
+        return 'a node occurs twice in descendants'
+    if set(got) != set(id(x) for x in want_nodes):
+        return 'descendants has %d nodes, the tree %d' % (len(got), len(want_nodes))
+    dtext = [d for d in desc if not isinstance(d, D.TexNode)]
+    if sorted(map(str, dtext)) != sorted(map(str, want_text)):
+        return 'text items of descendants differ from the text leaves of the tree'
+    try:
+        text = list(soup.text)
+    except Exception as e:
+        return 'text raises %s: %s' % (type(e).__name__, e)
+    if len(text) != len(want_text) or any(
+            (a is not b) if isinstance(b, common.impl().utils.Token) else (a != b)
+            for a, b in zip(text, want_text)):
+        return 'text view %r differs from the text leaves %r' % (text[:8], [str(x) for x in want_text[:8]])
+    # per node: contents, children, parent
+    for node in [soup] + nodes:
+        fc = flat_contents(node.expr)
+        cont = list(node.contents)
+        if len(cont) != len(fc):
+            return 'contents of %r has %d items, expected %d' % (str(node)[:30], len(cont), len(fc))
+        for c, x in zip(cont, fc):
+            if _textlike(x):
+                if isinstance(c, D.TexNode) or c != _text_of(x):
+                    return 'contents of %r: text item differs' % str(node)[:30]
+            elif not isinstance(c, D.TexNode) or c.expr is not x or c.parent is not node:
+                return 'contents of %r: node item or its parent differs' % str(node)[:30]
+        ch = list(node.children)
+        wch = [x for x in fc if not _textlike(x)]
+        if len(ch) != len(wch) or any(c.expr is not x or c.parent is not node for c, x in zip(ch, wch)):
+            return 'children of %r differ from the nodes of contents' % str(node)[:30]
+    for d in nodes:
+        up, steps = d, 0
+        while up.parent is not None and steps <= len(nodes) + 1:
+            if not any(c is up.expr for c in flat_contents(up.parent.expr)):
+                return 'parent of %r does not contain it' % str(up)[:30]
+            up, steps = up.parent, steps + 1
+        if up is not soup:
+            return 'parent chain of %r does not end at the root' % str(d)[:30]
+    # search
+    for name in names:
+        try:
+            fa = list(soup.find_all(name))
+        except Exception as e:
+            return 'find_all(%r) raises %s' % (name, type(e).__name__)
+        want = [n for n in nodes if str(n.expr.name) == name]
+        if len(fa) != len(want) or any(a.expr is not b.expr for a, b in zip(fa, want)):
+            return 'find_all(%r) gives %d nodes, descendants of that name: %d' % (name, len(fa), len(want))
+        if soup.count(name) != len(want):
+            return 'count(%r) differs' % name
+    # inserted material
+    if new:
+        cnode = node_for(soup, container) if container else soup
+        kids = [c.expr for c in cnode.children]
+        ctext = list(cnode.text)
+        for m in new:
+            if _textlike(m):
+                t = _text_of(m)
+                if not (isinstance(t, str) and t.isspace()) and not any(x == t for x in ctext):
+                    return 'inserted text %r is not in the text view of its container' % str(t)
+            else:
+                if not any(c is m for c in kids):
+                    return 'inserted node %r is not among the children of its container' % str(m)[:30]
+                if id(m) not in set(got):
+                    return 'inserted node %r is not among the descendants' % str(m)[:30]
+    return None
+
+
+def tree_names(soup):
+    from TexSoup import data as D
+    return sorted({str(x.name) for _, x in snapshot(soup)
+                   if isinstance(x, (D.TexCmd, D.TexNamedEnv))})
 
 
 if __name__ == '__main__':
